@@ -33,12 +33,18 @@ PARTIAL CORRECTNESS + PANIC FREEDOM AS TWO INSTANCES.  Functions that contain `X
 twice from the same text: `<fn>` with `.expect(..)` read as "if the call returns, X was Ok" (returns_ok_or_panics: meaning clauses hold for every run that
 returns) and `<fn>__no_panic` with the real `.expect(..)` (may it panic?).
 
-RED ON THE UNCHANGED TREE (all three reproduced against the real crate, see the unit report):
-  with_huffman_tree__no_panic.body        `TapTree::combine(..).expect("huffman tree cannot produce depth > 128 ..")` panics for a valid policy with > 130 nested `or`s
-  compile_tr__no_panic.body / compile_tr_native__no_panic.body
-                                          `Descriptor::new_tr(..).expect("compiler produces sane output")` panics when the extracted (or supplied) internal key is uncompressed
-  compile_tr(.._native).anyone_can_spend_policy_keeps_its_meaning
-                                          the policy TRIVIAL with an unspendable key compiles to `tr(KEY)`: anyone-can-spend became nobody-can-spend
+HISTORY.  On /repo 832b3f4e three obligations of this unit were red, each reproduced against the real crate and since fixed; the unit understands BOTH shapes of
+the code, so reverting a fix brings its red obligation back (checked with `git revert --no-commit <sha>` in a scratch worktree):
+  ef6dcc6a  with_huffman_tree returned `TapTree` and did `TapTree::combine(..).expect("huffman tree cannot produce depth > 128 ..")`: panic for a valid policy with
+            > 130 nested `or`s  (with_huffman_tree__no_panic.body).  Now `-> Result<TapTree, TapTreeDepthError>` with `combine(..)?`; contract: Ok ==> bag equality,
+            depth_error_only_with_more_than_128_leaves (a binary tree never has a leaf deeper than its number of leaves - 1: invariant
+            no_leaf_deeper_than_its_subtree_has_leaves), combine's own clause says when it fails
+  4b6e7cb6  `Descriptor::new_tr(..).expect("compiler produces sane output")` panicked for an uncompressed internal key
+            (compile_tr__no_panic.body / compile_tr_native__no_panic.body).  Now `.map_err(|_| CompilerError::LimitsExceeded)?`
+  b2cd0c6b  is_safe_nonmalleable counted TRIVIAL as signed, so the policy TRIVIAL with an unspendable key compiled to `tr(KEY)`
+            (compile_tr(.._native).anyone_can_spend_policy_keeps_its_meaning).  The LEAF rows of is_safe_nonmalleable are now under contract, cut from the real text
+            (is_safe_nonmalleable_step: leaf_is_signed_iff_every_satisfaction_needs_a_signature, trivial_is_satisfiable_without_a_signature, key_and_unsatisfiable_are_signed,
+            hash_and_time_locks_are_unsigned, leaves_are_non_malleable); the same arms, as the spec function isnm_leaf_row, are what compile_tr* learn about a leaf policy
 
 REWRITES (each a rewrite object; a lost pattern is UNDECIDED)
   R1      `#[cfg(feature = "compiler")]` dropped (the text compiled with the feature on is verified)
@@ -91,7 +97,9 @@ DROPPED = [
     "compiler::best_compilation is a stub: an Ok result lifts and means the leaf policy it was given (ASSUMPTION; per-candidate half: unit c08_compiler_nodes)",
     "Miniscript::lift of a compiled leaf is the uninterpreted `spec_ms_lift` (per-node step: unit c07_lift); the descriptor-level lift of the result is not re-verified "
     "(TapTree::lift / Tr::lift: unit c07_taptree); the clause is stated with that unit's BIP341 oracle",
-    "is_valid, check_binary_ops, is_safe_nonmalleable, check_num_tapleaves: signature-only stubs, nothing assumed about their answers",
+    "is_valid, check_binary_ops, check_num_tapleaves: signature-only stubs, nothing assumed about their answers",
+    "is_safe_nonmalleable: per-node step, LEAF rows only (And / Or / Thresh rows: `(0..n).map(|_| acc.pop().unwrap()).fold(..)` with tuple-pattern closures, excluded R9); "
+    "the loop / push / final pop are dropped; compile_tr* consume `for a leaf policy the result is its row` (one-node traversal trusted), nothing for n-ary policies",
     "translate_unsatisfiable_pk: per-node step only (loop / push / final try_unwrap dropped; traversal contract DESIGN 3.2); extract_key consumes the whole-tree "
     "statement as an assumed contract",
     "has_if_fragment: per-node predicate only (`pre_order_iter().any(..)` summarised by an uninterpreted spec_has_if)",
@@ -344,6 +352,12 @@ def pick_f64():
     a = ORACLE_A.index("// ---- f64: probabilities only order the leaves")
     b = ORACLE_A.index("// R14: `subs.iter().map(|prob_sub| prob_sub.0).sum::<usize>()`")
     return ORACLE_A[a:b]
+
+
+def drop_docs_vis(text):
+    from vlib.verus import drop_vis
+    from vlib.extract import strip_docs
+    return drop_vis(strip_docs(text)).strip("\n")
 
 
 def C(tag, text, props=("C08",)):
@@ -683,6 +697,17 @@ spec fn heap_ms<Pk: MiniscriptKey>(s: Seq<(Reverse<OrdF64>, TapTree<Pk>)>) -> Mu
 }
 spec fn input_seq<Pk: MiniscriptKey>(v: Seq<(OrdF64, Leaf<Pk>)>) -> Seq<Leaf<Pk>> { v.map_values(|e: (OrdF64, Leaf<Pk>)| e.1) }
 spec fn input_ms<Pk: MiniscriptKey>(v: Seq<(OrdF64, Leaf<Pk>)>) -> Multiset<Leaf<Pk>> { input_seq(v).to_multiset() }
+// a tree in which no leaf sits deeper than (number of its leaves - 1): true of every binary tree; such a tree of at most 128 leaves respects BIP341's depth limit
+spec fn tree_fits<Pk: MiniscriptKey>(t: TapTree<Pk>) -> bool {
+    t.depths_leaves@.len() >= 1 && forall|j: int| 0 <= j < t.depths_leaves@.len() ==> (#[trigger] t.depths_leaves@[j]).0 + 1 <= t.depths_leaves@.len()
+}
+spec fn heap_fits<Pk: MiniscriptKey>(s: Seq<(Reverse<OrdF64>, TapTree<Pk>)>) -> bool { forall|i: int| 0 <= i < s.len() ==> tree_fits((#[trigger] s[i]).1) }
+// number of leaves in all subtrees of the heap
+spec fn heap_cnt<Pk: MiniscriptKey>(s: Seq<(Reverse<OrdF64>, TapTree<Pk>)>) -> nat
+    decreases s.len()
+{
+    if s.len() == 0 { 0 } else { heap_cnt(s.drop_last()) + s.last().1.depths_leaves@.len() }
+}
 // BIP341: no leaf deeper than 128
 spec fn depths_ok<Pk: MiniscriptKey>(t: TapTree<Pk>) -> bool { forall|i: int| 0 <= i < t.depths_leaves@.len() ==> (#[trigger] t.depths_leaves@[i]).0 <= 128 }
 """
@@ -706,6 +731,54 @@ proof fn lemma_heap_remove<Pk: MiniscriptKey>(s: Seq<(Reverse<OrdF64>, TapTree<P
         assert(s.remove(i).drop_last() =~= s.drop_last().remove(i));
         assert(s.remove(i).last() == s.last());
     }
+}
+proof fn lemma_cnt_push<Pk: MiniscriptKey>(s: Seq<(Reverse<OrdF64>, TapTree<Pk>)>, x: (Reverse<OrdF64>, TapTree<Pk>))
+    ensures heap_cnt(s.push(x)) == heap_cnt(s) + x.1.depths_leaves@.len(),
+{
+    assert(s.push(x).drop_last() =~= s);
+}
+proof fn lemma_cnt_remove<Pk: MiniscriptKey>(s: Seq<(Reverse<OrdF64>, TapTree<Pk>)>, i: int)
+    requires 0 <= i < s.len(),
+    ensures heap_cnt(s) == heap_cnt(s.remove(i)) + s[i].1.depths_leaves@.len(),
+    decreases s.len(),
+{
+    if i == s.len() - 1 {
+        assert(s.remove(i) =~= s.drop_last());
+    } else {
+        lemma_cnt_remove(s.drop_last(), i);
+        assert(s.remove(i).drop_last() =~= s.drop_last().remove(i));
+        assert(s.remove(i).last() == s.last());
+    }
+}
+// t is l and r side by side, every leaf one level deeper (what TapTree::combine(l, r) returns)
+spec fn is_combined<Pk: MiniscriptKey>(t: TapTree<Pk>, l: TapTree<Pk>, r: TapTree<Pk>) -> bool {
+    &&& t.depths_leaves@.len() == l.depths_leaves@.len() + r.depths_leaves@.len()
+    &&& forall|i: int| 0 <= i < l.depths_leaves@.len() ==> (#[trigger] t.depths_leaves@[i]).0 == l.depths_leaves@[i].0 + 1
+    &&& forall|i: int| 0 <= i < r.depths_leaves@.len() ==> (#[trigger] t.depths_leaves@[l.depths_leaves@.len() + i]).0 == r.depths_leaves@[i].0 + 1
+}
+proof fn lemma_combined_fits<Pk: MiniscriptKey>(t: TapTree<Pk>, l: TapTree<Pk>, r: TapTree<Pk>)
+    requires tree_fits(l), tree_fits(r), is_combined(t, l, r),
+    ensures tree_fits(t),
+{
+    let ll = l.depths_leaves@.len() as int;
+    assert forall|j: int| 0 <= j < t.depths_leaves@.len() implies (#[trigger] t.depths_leaves@[j]).0 + 1 <= t.depths_leaves@.len() by {
+        if j < ll { assert(t.depths_leaves@[j].0 == l.depths_leaves@[j].0 + 1); }
+        else { let i = j - ll; assert(t.depths_leaves@[ll + i].0 == r.depths_leaves@[i].0 + 1); }
+    }
+}
+proof fn lemma_fits_remove<Pk: MiniscriptKey>(s: Seq<(Reverse<OrdF64>, TapTree<Pk>)>, i: int)
+    requires 0 <= i < s.len(), heap_fits(s),
+    ensures heap_fits(s.remove(i)), tree_fits(s[i].1),
+{
+    assert forall|q: int| 0 <= q < s.remove(i).len() implies tree_fits((#[trigger] s.remove(i)[q]).1) by {
+        if q < i { assert(s.remove(i)[q] == s[q]); } else { assert(s.remove(i)[q] == s[q + 1]); }
+    }
+}
+proof fn lemma_fits_push<Pk: MiniscriptKey>(s: Seq<(Reverse<OrdF64>, TapTree<Pk>)>, x: (Reverse<OrdF64>, TapTree<Pk>))
+    requires heap_fits(s), tree_fits(x.1),
+    ensures heap_fits(s.push(x)),
+{
+    assert forall|q: int| 0 <= q < s.push(x).len() implies tree_fits((#[trigger] s.push(x)[q]).1) by { if q < s.len() { assert(s.push(x)[q] == s[q]); } }
 }
 proof fn lemma_heap_one<Pk: MiniscriptKey>(s: Seq<(Reverse<OrdF64>, TapTree<Pk>)>)
     requires s.len() == 1,
@@ -798,12 +871,12 @@ proof fn axiom_vec_len<T>(v: &Vec<T>)
 """
 
 
-def partial_expect(call_re, name):
+def partial_expect(call_re, name, required=True):
     """R7-partial: `CALL.expect("..")` -> returns_ok_or_panics(CALL) in the partial-correctness instance of a function."""
     @rule("R7-partial-correctness-expect(%s)" % name)
     def rw(text):
-        new, k = re.subn(r"(%s)\s*\.expect\(\s*\"[^\"]*\"\s*\)" % call_re, r"returns_ok_or_panics(\1)", text, flags=re.S)
-        return new if k else None
+        new, k = re.subn(r"(%s)\s*(?:\.expect\(\s*\"[^\"]*\"\s*\)|\.unwrap\(\))" % call_re, r"returns_ok_or_panics(\1)", text, flags=re.S)
+        return new if (k or not required) else None
     return rw
 
 
@@ -818,30 +891,36 @@ def huffman_rewrites(partial):
             sub("R7-assert-ne", r"assert_ne!\(node_weights\.len\(\), 0, \"[^\"]*\"\);", "assert!(node_weights.len() != 0);"),
             sub("R10-while-invariant", r"while node_weights\.len\(\) > 1 \{",
                 "while node_weights.len() > 1\n        invariant\n            node_weights@.len() >= 1,\n        decreases node_weights@.len(),\n    {"),
+            lit("R7-path", "crate::descriptor::TapTreeDepthError", "TapTreeDepthError", required=False),
         ] + F64
     return [
         CFG,
-        partial_expect(r"TapTree::combine\([^()]*\)", "combine"),
+        partial_expect(r"TapTree::combine\([^()]*\)", "combine", required=False),
         # R10: the `for` over the input vector gets a name for its iterator and an invariant
         sub("R10-for-invariant", r"for \(prob, script\) in ms \{",
             "proof { lemma_input_push(ms@, 0); }\n    for (prob, script) in hf_it: ms\n        invariant\n            node_weights@.len() == hf_it.index@, hf_it.index@ <= ms@.len(),\n"
-            "            heap_ms(node_weights@) =~= input_ms(ms@.take(hf_it.index@ as int)), //@inv every_input_leaf_enters_the_heap_once [C08]\n    {\n"
+            "            heap_ms(node_weights@) =~= input_ms(ms@.take(hf_it.index@ as int)), //@inv every_input_leaf_enters_the_heap_once [C08]\n"
+            "            heap_fits(node_weights@), heap_cnt(node_weights@) == hf_it.index@,\n    {\n"
             "        let ghost hw0 = node_weights@;\n        proof { lemma_input_push(ms@, hf_it.index@ as int); }"),
         sub("R10-after-push", r"(node_weights\.push\(\(Reverse\(prob\), TapTree::leaf\(script\)\)\);)",
-            r"\1\n        proof { lemma_heap_push(hw0, node_weights@.last()); lemma_tree_single(node_weights@.last().1, script); }"),
+            r"\1\n        proof { lemma_heap_push(hw0, node_weights@.last()); lemma_tree_single(node_weights@.last().1, script); lemma_cnt_push(hw0, node_weights@.last()); lemma_fits_push(hw0, node_weights@.last()); assert(node_weights@ =~= hw0.push(node_weights@.last())); }"),
         sub("R7-assert-ne", r"assert_ne!\(node_weights\.len\(\), 0, \"[^\"]*\"\);", "assert!(node_weights.len() != 0);"),
         sub("R10-while-invariant", r"while node_weights\.len\(\) > 1 \{",
             "while node_weights.len() > 1\n        invariant\n            node_weights@.len() >= 1,\n"
-            "            %s, //@inv combining_two_subtrees_keeps_every_leaf [C08]\n        decreases node_weights@.len(),\n    {\n"
+            "            %s, //@inv combining_two_subtrees_keeps_every_leaf [C08]\n"
+            "            heap_fits(node_weights@), heap_cnt(node_weights@) == ms@.len(), //@inv no_leaf_deeper_than_its_subtree_has_leaves [C08]\n        decreases node_weights@.len(),\n    {\n"
             "        let ghost h0 = node_weights@;" % GH),
         sub("R10-after-pop-1", r"(let \(p1, s1\) = node_weights\.pop\(\)\.expect\(\"[^\"]*\"\);)",
-            r"\1\n        let ghost h1 = node_weights@;\n        proof { let i1 = choose|i: int| 0 <= i < h0.len() && #[trigger] h0[i] == (p1, s1) && h1 == h0.remove(i); lemma_heap_remove(h0, i1); }"),
+            r"\1\n        let ghost h1 = node_weights@;\n        proof { let i1 = choose|i: int| 0 <= i < h0.len() && #[trigger] h0[i] == (p1, s1) && h1 == h0.remove(i); lemma_heap_remove(h0, i1); lemma_cnt_remove(h0, i1); lemma_fits_remove(h0, i1); }"),
         sub("R10-after-pop-2", r"(let \(p2, s2\) = node_weights\.pop\(\)\.expect\(\"[^\"]*\"\);)",
-            r"\1\n        let ghost h2 = node_weights@;\n        proof { let i2 = choose|i: int| 0 <= i < h1.len() && #[trigger] h1[i] == (p2, s2) && h2 == h1.remove(i); lemma_heap_remove(h1, i2); }"),
-        sub("R10-after-combine", r"(returns_ok_or_panics\(TapTree::combine\([^()]*\)\),\s*\)\);)",
-            r"\1\n        proof { lemma_heap_push(h2, node_weights@.last()); let hf_t = node_weights@.last().1;\n"
-            r"                if leaf_seq(hf_t) =~= leaf_seq(s1) + leaf_seq(s2) { lemma_tree_concat(hf_t, s1, s2); } else if leaf_seq(hf_t) =~= leaf_seq(s2) + leaf_seq(s1) { lemma_tree_concat(hf_t, s2, s1); } }"),
+            r"\1\n        let ghost h2 = node_weights@;\n        proof { let i2 = choose|i: int| 0 <= i < h1.len() && #[trigger] h1[i] == (p2, s2) && h2 == h1.remove(i); lemma_heap_remove(h1, i2); lemma_cnt_remove(h1, i2); lemma_fits_remove(h1, i2); }"),
+        sub("R10-after-combine", r"(node_weights\.push\(\(\s*Reverse\(OrdF64\(p\)\),\s*(?:returns_ok_or_panics\(TapTree::combine\([^()]*\)\)|TapTree::combine\([^()]*\)\?),?\s*\)\);)",
+            r"\1\n        proof { lemma_heap_push(h2, node_weights@.last()); lemma_cnt_push(h2, node_weights@.last()); let hf_t = node_weights@.last().1;\n"
+            r"                if leaf_seq(hf_t) =~= leaf_seq(s1) + leaf_seq(s2) { lemma_tree_concat(hf_t, s1, s2); } else if leaf_seq(hf_t) =~= leaf_seq(s2) + leaf_seq(s1) { lemma_tree_concat(hf_t, s2, s1); }\n"
+            r"                if is_combined(hf_t, s1, s2) { lemma_combined_fits(hf_t, s1, s2); } else if is_combined(hf_t, s2, s1) { lemma_combined_fits(hf_t, s2, s1); }\n"
+            r"                if tree_fits(hf_t) { lemma_fits_push(h2, node_weights@.last()); assert(node_weights@ =~= h2.push(node_weights@.last())); } }"),
         sub("R10-before-final-pop", r"(debug_assert!\(node_weights\.len\(\) == 1\);)", r"\1\n    proof { lemma_heap_one(node_weights@); }"),
+        lit("R7-path", "crate::descriptor::TapTreeDepthError", "TapTreeDepthError", required=False),
     ] + F64
 
 
@@ -956,14 +1035,19 @@ def compile_tr_rewrites(partial):
         # ghost: a skipped leaf never holds; a pushed compilation means its leaf policy
         sub("R10-after-push", r"(leaf_compilations\.push\(\(OrdF64\(prob\), compilation\)\);)",
             r"\1" + "\n                                proof { lemma_vec_push(tl_lc0, leaf_compilations@.last()); assert(leaf_compilations@ =~= tl_lc0.push(leaf_compilations@.last())); }"),
-        sub("R10-after-huffman", r"let tap_tree = with_huffman_tree::<Pk>\(leaf_compilations\);",
-            "let ghost tl_lc = leaf_compilations@;\n                                let tap_tree = with_huffman_tree::<Pk>(leaf_compilations);\n"
-            "                                proof { lemma_same_bag(tap_tree, tl_lc); }"),
+        sub("R10-after-huffman", r"let tap_tree = (with_huffman_tree::<Pk>\(leaf_compilations\)[^;]*);",
+            r"let ghost tl_lc = leaf_compilations@;\n                                let tap_tree = \1;\n"
+            r"                                proof { lemma_same_bag(tap_tree, tl_lc); }"),
+        UNNAMED_CLOSURE_PARAM,
         sub("R10-body-start", r"\{", "{\n        broadcast use lemma_key_or_rest;", count=1),
     ] + F64
     if partial:
         rws.insert(1, PartialNewTr())
     return rws
+
+
+# R7: `|_| EXPR` -> `|_unused| EXPR` (Verus rejects `_` as a closure parameter; the argument is ignored either way)
+UNNAMED_CLOSURE_PARAM = sub("R7-unnamed-closure-param", r"\|_\|", "|_unused|", required=False)
 
 
 class PartialNewTr:
@@ -975,9 +1059,9 @@ class PartialNewTr:
         if not m:
             return None
         close = match_close(text, m.end() - 1)
-        m2 = re.match(r"\s*\.expect\(\s*\"[^\"]*\"\s*\)", text[close + 1:])
+        m2 = re.match(r"\s*(?:\.expect\(\s*\"[^\"]*\"\s*\)|\.unwrap\(\))", text[close + 1:])
         if not m2:
-            return None
+            return text          # no `.expect(..)` on the constructor's result: its error is propagated, nothing to read partially
         return text[:m.start()] + "returns_ok_or_panics(" + text[m.start():close + 1] + ")" + text[close + 1 + m2.end():]
 
 
@@ -1233,13 +1317,94 @@ def compile_tr_native_rewrites(partial):
                              "                                assert forall|a: Asg<Pk>| #[trigger] csem(nl_pol, a) == vec_spends(leaf_compilations@, a) by { assert(pv_any(leaves@, a) == csem(nl_pol, a)); } }\n"),
         sub("R10-after-push", r"(leaf_compilations\.push\(\(OrdF64\(\*prob\), compilation\)\);)",
             r"\1" + "\n                            proof { lemma_vec_push(nl_lc0, leaf_compilations@.last()); assert(leaf_compilations@ =~= nl_lc0.push(leaf_compilations@.last())); }"),
-        sub("R10-after-huffman", r"Some\(with_huffman_tree::<Pk>\(leaf_compilations\)\)",
-            "{ let ghost nl_lc = leaf_compilations@; let nl_tree = with_huffman_tree::<Pk>(leaf_compilations); proof { lemma_same_bag(nl_tree, nl_lc); lemma_if_free_bag(nl_tree, nl_lc); } Some(nl_tree) }"),
+        sub("R10-after-huffman", r"Some\(\s*(with_huffman_tree::<Pk>\(leaf_compilations\)(?:\s*\.map_err\([^()]*\)\?)?),?\s*\)",
+            r"{ let ghost nl_lc = leaf_compilations@; let nl_tree = \1; proof { lemma_same_bag(nl_tree, nl_lc); lemma_if_free_bag(nl_tree, nl_lc); } Some(nl_tree) }"),
+        UNNAMED_CLOSURE_PARAM,
         sub("R10-body-start", r"\{", "{\n        broadcast use lemma_key_or_rest;", count=1),
     ] + F64
     if partial:
         rws.insert(1, PartialNewTr())
     return rws
+
+
+SAFE_ORACLE = r"""
+// ---- ORACLE for is_safe_nonmalleable at the leaves (its doc: `signed` = every satisfaction needs a signature) -------------------------------
+// a policy is SAFE when no assignment without any signing key satisfies it
+spec fn no_keys<Pk: MiniscriptKey>(a: Asg<Pk>) -> bool { a.keys =~= Set::<Pk>::empty() }
+spec fn needs_a_signature<Pk: MiniscriptKey>(p: Concrete<Pk>) -> bool { forall|a: Asg<Pk>| #[trigger] csem(p, a) ==> !no_keys(a) }
+proof fn lemma_leaf_needs_a_signature<Pk: MiniscriptKey>(p: Concrete<Pk>)
+    requires is_cleaf(p),
+    ensures needs_a_signature(p) == (p is Key || p is Unsatisfiable),
+{
+    let base = Asg::<Pk> { keys: Set::empty(), sha256: Set::empty(), hash256: Set::empty(), ripemd160: Set::empty(), hash160: Set::empty(), older: Set::empty(), after: Set::empty() };
+    assert(no_keys(base));
+    match p {
+        Concrete::Key(k) => { assert forall|a: Asg<Pk>| #[trigger] csem(p, a) implies !no_keys(a) by { if no_keys(a) { assert(!Set::<Pk>::empty().contains(k)); } } }
+        Concrete::Unsatisfiable => {}
+        Concrete::Trivial => { assert(csem(p, base)); }
+        Concrete::After(t) => { let a = Asg::<Pk> { after: Set::empty().insert(t.consensus()), ..base }; assert(csem(p, a) && no_keys(a)); }
+        Concrete::Older(t) => { let a = Asg::<Pk> { older: Set::empty().insert(t.consensus()), ..base }; assert(csem(p, a) && no_keys(a)); }
+        Concrete::Sha256(h) => { let a = Asg::<Pk> { sha256: Set::empty().insert(h), ..base }; assert(csem(p, a) && no_keys(a)); }
+        Concrete::Hash256(h) => { let a = Asg::<Pk> { hash256: Set::empty().insert(h), ..base }; assert(csem(p, a) && no_keys(a)); }
+        Concrete::Ripemd160(h) => { let a = Asg::<Pk> { ripemd160: Set::empty().insert(h), ..base }; assert(csem(p, a) && no_keys(a)); }
+        Concrete::Hash160(h) => { let a = Asg::<Pk> { hash160: Set::empty().insert(h), ..base }; assert(csem(p, a) && no_keys(a)); }
+        _ => {}
+    }
+}
+// R9: the And / Or / Thresh rows (`(0..n).map(|_| acc.pop().unwrap()).fold(..)` with tuple-pattern closures) are not verified
+#[verifier::external_body]
+fn isnm_nary_arm_excluded(acc: &mut Vec<(bool, bool)>) -> (bool, bool) { unimplemented!() }
+"""
+
+
+def emit_is_safe_nonmalleable(vf, repo):
+    """is_safe_nonmalleable (rtl post-order loop + per-node match): the LEAF rows of its table.
+    * the leaf arms of the real `match data.node` are cut verbatim TWICE: into the exec step `is_safe_nonmalleable_step` and into the spec function
+      `isnm_leaf_row` (n-ary arms -> arbitrary());  `step.leaf_row_is_the_table_of_the_text` ties the two (same text, proved);
+    * the table is judged against the oracle `needs_a_signature` (semantic: no key-less assignment satisfies the leaf) and the doc (leaves are non-malleable);
+    * the whole function is consumed by compile_tr* through: for a LEAF policy the result is that leaf's row (one iteration: push, pop) -- the traversal is trusted."""
+    from vlib.extract import split_arms
+    anchor = impl_with_fn(repo, CONC, "Policy<Pk>", "is_safe_nonmalleable")
+    reg = repo.at(CONC, anchor + "/match:data.node")
+    arms = split_arms(reg.src, reg.start, reg.end)
+    leaf_arms, nary = [], []
+    for a in arms:
+        pat = re.sub(r"\s+", " ", a["pat"])
+        if re.match(r"^(And|Or|Thresh)\(", pat):
+            nary.append(pat)
+        else:
+            if a["guard"]:
+                raise Undecided("is_safe_nonmalleable: a leaf arm has a guard (anchor lost)")
+            leaf_arms.append("        %s => %s," % (a["pat"], drop_docs_vis(a["body"]).strip().rstrip(",")))
+    if sorted(p.split("(")[0] for p in nary) != ["And", "Or", "Thresh"]:
+        raise Undecided("is_safe_nonmalleable: expected exactly the n-ary arms And / Or / Thresh next to the leaf arms (anchor lost)")
+    vf.raw(SAFE_ORACLE)
+    vf.trust("isnm_nary_arm_excluded (external_body, no contract)", "R9: the And / Or / Thresh rows of is_safe_nonmalleable are not verified in this unit")
+    vf.functions["oracle::leaf_needs_a_signature"] = dict(props=("C08",), file=None, lines=None, clauses={}, start=vf._lines - 30, end=vf._lines - 4, origin="verif")
+    # the leaf arms as a spec function (the text of /repo, used as its own specification twin)
+    vf.raw("spec fn isnm_leaf_row<Pk: MiniscriptKey>(node: Concrete<Pk>) -> (bool, bool) {\n    match node {\n%s\n        _ => arbitrary(),\n    }\n}\n"
+           % "\n".join(re.sub(r"(?<![\w:])(Unsatisfiable|Trivial|Key|After|Older|Sha256|Hash256|Ripemd160|Hash160)\b(?=\s*(\(|\||=>))", r"Concrete::\1", l) for l in leaf_arms))
+    N_ = "*data.node"
+    with vf.block("impl<Pk: MiniscriptKey> Concrete<Pk>"):
+        vf.step(CONC, anchor + "/match:data.node", "Concrete::is_safe_nonmalleable_step",
+                "fn is_safe_nonmalleable_step(data: PostOrderIterItem<&Concrete<Pk>>, acc: &mut Vec<(bool, bool)>) -> (bool, bool)", props=PROPS,
+                exclude={"And(ref subs)": "isnm_nary_arm_excluded(acc)", "Or(ref subs)": "isnm_nary_arm_excluded(acc)", "Thresh(ref thresh)": "isnm_nary_arm_excluded(acc)"},
+                pre_match="    use Concrete::*;\n    proof { if is_cleaf(*data.node) { lemma_leaf_needs_a_signature(*data.node); } }",
+                contract=Contract(ensures=[
+                    C("leaf_row_is_the_table_of_the_text", "is_cleaf(%s) ==> r == isnm_leaf_row(%s)" % (N_, N_)),
+                    C("leaf_is_signed_iff_every_satisfaction_needs_a_signature", "is_cleaf(%s) ==> r.0 == needs_a_signature(%s)" % (N_, N_)),
+                    C("trivial_is_satisfiable_without_a_signature", "%s is Trivial ==> !r.0" % N_),
+                    C("key_and_unsatisfiable_are_signed", "(%s is Key || %s is Unsatisfiable) ==> r.0" % (N_, N_)),
+                    C("hash_and_time_locks_are_unsigned", "(%s is Sha256 || %s is Hash256 || %s is Ripemd160 || %s is Hash160 || %s is After || %s is Older) ==> !r.0" % ((N_,) * 6)),
+                    C("leaves_are_non_malleable", "is_cleaf(%s) ==> r.1" % N_),
+                    C("leaf_stack_frame", "is_cleaf(%s) ==> final(acc)@ == old(acc)@" % N_, ("C08", "C11")),
+                ]))
+        vf.fn(CONC, anchor, qual="Concrete", assumed=True,
+              contract=Contract(ensures=[C("a_leaf_policy_gets_its_row", "is_cleaf(*self) ==> r == isnm_leaf_row(*self)")]))
+    vf.trust("Concrete::is_safe_nonmalleable (external_body): for a LEAF policy the result is isnm_leaf_row(policy)",
+             "isnm_leaf_row is the text of the leaf arms of the real `match data.node` (cut mechanically, tied to the exec arms by "
+             "is_safe_nonmalleable_step.leaf_row_is_the_table_of_the_text); for a one-node tree the rtl post-order loop runs once: push the row, pop it (traversal trusted, DESIGN 3.2). "
+             "Nothing is assumed for And / Or / Thresh policies")
 
 
 class SkipFns(T7.SkipFns):
@@ -1392,10 +1557,15 @@ def build(repo):
                     "&& (forall|i: int| 0 <= i < right.depths_leaves@.len() ==> (#[trigger] r->Ok_0.depths_leaves@[left.depths_leaves@.len() + i]).0 == right.depths_leaves@[i].0 + 1)"),
               ]))
     register_named_invariants(vf, "TapTree::combine")
+    # two shapes of the function are understood: `-> TapTree<Pk>` with `combine(..).expect(..)` (then the partial-correctness / no-panic pair below) and
+    # `-> Result<TapTree<Pk>, TapTreeDepthError>` with `combine(..)?` (the depth error surfaces as Err)
+    hf_head = split_fn(drop_docs_vis(repo.at(CONC, "fn:with_huffman_tree").text))
+    hf_result = hf_head[1] is not None and hf_head[1].replace(" ", "").startswith("Result<")
+    HF_OK, HF_T = ("r is Ok ==> ", "r->Ok_0") if hf_result else ("", "r")
     vf.fn(CONC, "fn:with_huffman_tree", props=PROPS, rewrites=huffman_rewrites(True),
           contract=Contract(requires=["ms@.len() > 0"], ensures=[
-              C("leaves_are_exactly_the_input_leaves", "tree_ms(r) =~= input_ms(ms@)"),
-          ]))
+              C("leaves_are_exactly_the_input_leaves", HF_OK + "tree_ms(%s) =~= input_ms(ms@)" % HF_T),
+          ] + ([C("depth_error_only_with_more_than_128_leaves", "ms@.len() <= 128 ==> r is Ok")] if hf_result else [])))
     register_named_invariants(vf, "with_huffman_tree")
     with_huffman_done = True
     # the same text once more, with the real `.expect(..)` on TapTree::combine: may the construction panic?
@@ -1429,8 +1599,10 @@ def build(repo):
                   C("ok_iff_key_allowed_in_tapscript", "r is Ok <==> !key.spec_is_uncompressed()"),
                   C("is_the_tr_descriptor_of_key_and_tree", "r is Ok ==> r->Ok_0 is Tr && r->Ok_0->Tr_0.internal_key == key && r->Ok_0->Tr_0.tree == script")]))
     with vf.block("impl<Pk: MiniscriptKey> Concrete<Pk>"):
-        for fname in ("is_valid", "check_binary_ops", "is_safe_nonmalleable", "check_num_tapleaves"):
+        for fname in ("is_valid", "check_binary_ops", "check_num_tapleaves"):
             vf.fn(CONC, impl_with_fn(repo, CONC, "Policy<Pk>", fname), qual="Concrete", assumed=True, rewrites=[CFG])
+    emit_is_safe_nonmalleable(vf, repo)
+    with vf.block("impl<Pk: MiniscriptKey> Concrete<Pk>"):
         TRC = [
             C("meaning_preserved", "!(*self is Trivial) ==> (r is Ok ==> tr_means_policy(*self, r->Ok_0))"),
             C("anyone_can_spend_policy_keeps_its_meaning", "*self is Trivial ==> (r is Ok ==> tr_means_policy(*self, r->Ok_0))"),
@@ -1518,7 +1690,7 @@ def build(repo):
         register_named_invariants(vf, "Concrete::compile_tr_native")
         vf.fn(CONC, impl_with_fn(repo, CONC, "Policy<Pk>", "compile_tr_native"), qual="Concrete", rename="compile_tr_native__no_panic", props=PROPS,
               rewrites=compile_tr_native_rewrites(False), contract=Contract())
-    vf.trust("Concrete::{is_valid, check_binary_ops, is_safe_nonmalleable, check_num_tapleaves} (external_body, NO contract)", "sanity checks in front of the compilation: nothing is assumed about their answers")
+    vf.trust("Concrete::{is_valid, check_binary_ops, check_num_tapleaves} (external_body, NO contract)", "sanity checks in front of the compilation: nothing is assumed about their answers")
     vf.trust("max_by_key_pick (external_body); extract_key_chain (verified loop standing for the iterator chain)",
              "Iterator::filter_map / max_by_key / map have their std meaning: max_by_key returns one of the elements that passed the filter (None iff none did); "
              "which one is decided by the f64 priority (not modelled)")
